@@ -1640,4 +1640,10 @@ theorem timeouts_unarmed (T : Tables) (c : Cfg) (s : State) (ha : s.armed = fals
       simp [timeouts, run, List.replicate_succ]
     rw [this, h1, ih]
 
+/-- decidable table property: only the five receive handlers named by finding KF-ncp-timer-stopped-early
+    (Configure-Ack, -Nak, -Reject, Terminate-Request, Terminate-Ack) and Down() call stopTimer() before their state
+    switch; Up, Open, closeInternal, receiveConfigureRequest and timeout do not -/
+def GoodStops (T : Tables) : Bool :=
+  [Handler.up, .open, .close, .rcr, .timeout].all fun h => !(T.pre h).contains .stopTimer
+
 end Bng.Ncp
